@@ -74,6 +74,23 @@ def run(ctx):
             ["L", ["-3", "-n", "-a", "-v", "CVSS:3.0/AV:N/AC:L/PR:N/UI:N/S:U/C:H/I:H/A:H/E:F"], []],
             ["X", "CVSS:3.٣/AV:N/AC:L/Au:N/C:P/I:P/A:P and CVSS:3.1/AV:N/AC:L/PR:N/UI:N/S:U/C:H/I:H/A:H"],
             ["C", "3", "CVSS:3.1/AV:N/AC:L/PR:N/UI:N/S:U/C:H/I:H/A:H/é:1"]]
+    # bulk score comparison: every scoring-group assignment of v4 in random contexts (covers every macrovector and
+    # its neighbours), v2 low-end family, singleton spellings, random vectors
+    import itertools
+    from . import c02
+    bulk = []
+    for g in c02.GROUPS:
+        for combo in itertools.product(*[c02.EFF_DOM[m] for m in g]):
+            for _ in range(ctx.n(3, 12)):
+                e = c02.rand_eff(rng)
+                e.update(dict(zip(g, combo)))
+                bulk.append(["S", "4", c02.spell(e, rng)])
+    bulk += [["S", "2", s] for s in core.v2_low_family()[::3]]
+    for v in "234":
+        bulk += [["S", v, s] for s in core.singletons(v, rng, ctx.n(20, 200))]
+        bulk += [["S", v, core.rand_vector(v, rng)] for _ in range(ctx.n(1500, 20000))]
+    ops += bulk
+    ctx.extra["bulk_score_operations"] = len(bulk)
     ctx.sample({"operation": ops[0]})
     ref = probes.run_probe("/venv/bin/python", ops)
     if "results" not in ref:
